@@ -224,6 +224,10 @@ class Report:
         self.prove_wall = time.time() - t0
         if a.v:
             print('PROVE phases: explore %.1fs solve %.1fs canary %.1fs total %.1fs' % (t_explore, t_solve, t_can, self.prove_wall))
+            slow = sorted(((sum(dt for _, _, dt in (r.get('tries') or [])), r['uid'], r.get('tries')) for r in self.prove_rows), reverse=True)[:6]
+            for dt, uid, tries in slow:
+                if dt > 2.0:
+                    print('  slow: %.1fs %s %s' % (dt, uid, [(b, st, round(t, 1)) for b, st, t in tries]))
 
     # ------------------------------------------------------------------ REFUTE
     def refute(self, a):
@@ -303,7 +307,8 @@ class Report:
 
         # refusals without a concrete input are reported only if no concrete violation already explains the run
         if pending_refusals:
-            if viols:
+            known_cl = set(f['clause'] for f in known)
+            if any(v['clause'] not in known_cl for v in viols):      # (a listed known finding explains nothing new)
                 for v in pending_refusals:
                     undecided.append((v['obligation'], 'refused; a concrete violation is reported for this run'))
             else:
